@@ -55,7 +55,7 @@ def check_dtcwt_grad(cfg, sizes, rnd):
     o_dim, ri_dim = cfg.get('o_dim', 2), cfg.get('ri_dim', -1)
     skip = cfg.get('skip_hps', False)
     inc = cfg.get('include_scale', False)
-    rs = np.random.RandomState(rnd.randint(0, 10**6))
+    rs = rtc.RState(rnd.randint(0, 10**6))
     fwd = _build64(DTCWTForward, biort=biort, qshift=qshift, J=J, o_dim=o_dim, ri_dim=ri_dim, skip_hps=skip, include_scale=inc)
 
     def flat(o):
@@ -102,6 +102,20 @@ if not hasattr(np, 'int'):
     np.int = int          # the reference package predates numpy 1.24
 
 
+def _ref_inverse(t, low, highs):
+    """reference inverse, evaluated as ref(P + D) - ref(D) with a dense random D: the reference package's colifilt returns
+    zeros whenever all non-zero samples of its input lie in row 0 (`np.any(np.nonzero(X)[0])` tests the row INDICES), which
+    makes it non-additive on sparse pyramids; with a dense dither that shortcut is never taken"""
+    import dtcwt
+    rs = np.random.RandomState(12345)
+    sc = rtc.AMP['scale']
+    dl = rs.randn(*low.shape) * sc
+    dh = [(rs.randn(*h.shape) + 1j * rs.randn(*h.shape)) * sc for h in highs]
+    a = t.inverse(dtcwt.Pyramid(low + dl, tuple(h + d for h, d in zip(highs, dh))))
+    b = t.inverse(dtcwt.Pyramid(dl, tuple(dh)))
+    return a - b
+
+
 def _ref_pyramid(x2d, biort, qshift, J, include_scale=False):
     import dtcwt
     import logging
@@ -120,7 +134,7 @@ def check_dtcwt_forward(cfg, sizes, rnd):
     o_dim, ri_dim = cfg.get('o_dim', 2), cfg.get('ri_dim', -1)
     skip = cfg.get('skip_hps', False)
     inc = cfg.get('include_scale', False)
-    rs = np.random.RandomState(rnd.randint(0, 10**6))
+    rs = rtc.RState(rnd.randint(0, 10**6))
     x = torch.tensor(rs.randn(2, 2, H, W))
     f = _build64(DTCWTForward, biort=biort, qshift=qshift, J=J, o_dim=o_dim, ri_dim=ri_dim, skip_hps=skip, include_scale=inc)
     yl, yh = f(x)
@@ -183,14 +197,14 @@ def check_dtcwt_inverse(cfg, sizes, rnd):
     J = _sz(sizes, 'J', 2, 1, 4)
     H, W = _sz(sizes, 'H', 10, 2, 40), _sz(sizes, 'W', 12, 2, 40)
     o_dim, ri_dim = cfg.get('o_dim', 2), cfg.get('ri_dim', -1)
-    rs = np.random.RandomState(rnd.randint(0, 10**6))
+    rs = rtc.RState(rnd.randint(0, 10**6))
     t, p0 = _ref_pyramid(rs.randn(H, W), biort, qshift, J)
     low = rs.randn(*p0.lowpass.shape)
     highs = [rs.randn(*h.shape) + 1j * rs.randn(*h.shape) for h in p0.highpasses]
     absent = cfg.get('absent', {})        # {'low': kind} / {'level': j, 'kind': kind}
     ref_low = np.zeros_like(low) if 'low' in absent else low
     ref_highs = [np.zeros_like(h) if absent.get('level') == j else h for j, h in enumerate(highs)]
-    want = t.inverse(dtcwt.Pyramid(ref_low, tuple(ref_highs)))
+    want = _ref_inverse(t, ref_low, ref_highs)
 
     def tok(kind):
         return {'none': None, 'empty': torch.tensor([]), '0dim': torch.zeros([], dtype=torch.float64)}[kind]
@@ -217,7 +231,7 @@ def check_dtcwt_pr(cfg, sizes, rnd):
     biort, qshift = cfg.get('biort', 'near_sym_a'), cfg.get('qshift', 'qshift_a')
     J = _sz(sizes, 'J', 2, 1, 4)
     H, W = _sz(sizes, 'H', 10, 2, 48), _sz(sizes, 'W', 12, 2, 48)
-    rs = np.random.RandomState(rnd.randint(0, 10**6))
+    rs = rtc.RState(rnd.randint(0, 10**6))
     x = torch.tensor(rs.randn(1, 2, H, W))
     o_dim, ri_dim = cfg.get('o_dim', 2), cfg.get('ri_dim', -1)
     f = _build64(DTCWTForward, biort=biort, qshift=qshift, J=J, o_dim=o_dim, ri_dim=ri_dim)
@@ -229,7 +243,7 @@ def check_dtcwt_pr(cfg, sizes, rnd):
     if tuple(y.shape[2:]) != (H + H % 2, W + W % 2):
         return False, 'reconstruction has extent %s for input %dx%d' % (tuple(y.shape[2:]), H, W)
     err = float((y[..., :H, :W] - x).abs().max())
-    return err < 1e-8, 'DTCWT PR %s/%s J=%d %dx%d: err %.3g' % (biort, qshift, J, H, W, err)
+    return err < 1e-8 * rtc.AMP['scale'], 'DTCWT PR %s/%s J=%d %dx%d: err %.3g' % (biort, qshift, J, H, W, err)
 
 
 @register('ref_pr')
@@ -239,9 +253,9 @@ def check_ref_pr(cfg, sizes, rnd):
     biort, qshift = cfg.get('biort', 'near_sym_a'), cfg.get('qshift', 'qshift_a')
     J = _sz(sizes, 'J', 2, 1, 5)
     H, W = _sz(sizes, 'H', 10, 2, 64), _sz(sizes, 'W', 12, 2, 64)
-    rs = np.random.RandomState(rnd.randint(0, 10**6))
+    rs = rtc.RState(rnd.randint(0, 10**6))
     x = rs.randn(H, W)
     t, p = _ref_pyramid(x, biort, qshift, J)
-    y = t.inverse(p)
+    y = _ref_inverse(t, p.lowpass, list(p.highpasses))
     err = float(np.abs(y[:H, :W] - x).max())
-    return err < 1e-9 and y.shape == (H + H % 2, W + W % 2), 'reference PR %s/%s J=%d %dx%d err %.3g' % (biort, qshift, J, H, W, err)
+    return err < 1e-9 * rtc.AMP['scale'] and y.shape == (H + H % 2, W + W % 2), 'reference PR %s/%s J=%d %dx%d err %.3g' % (biort, qshift, J, H, W, err)
